@@ -360,7 +360,16 @@ func (s *Sched) enqueue(c *ctl, id controller.ID) {
 	s.enqueueSlot(sl, id)
 }
 
-func idString(id controller.ID) string { return fmt.Sprint(id.Value) }
+// idString renders an ID for histories; connection ids (random UUIDs) are
+// replaced by the harness's stable labels.
+func (s *Sched) idStr(id controller.ID) string {
+	if c, ok := id.Value.(sb.ConnID); ok {
+		if l := s.w.Conns.Label(c); l != "" {
+			return "conn:" + l
+		}
+	}
+	return fmt.Sprint(id.Value)
+}
 
 func (s *Sched) enqueueSlot(sl *slot, id controller.ID) {
 	for _, it := range sl.pending {
@@ -535,7 +544,7 @@ func (s *Sched) runAtomic(sl *slot, it *item) StepInfo {
 	sl.gate.task = nil
 	t.res, t.err, t.panicked, t.stack = res, err, p, st
 	s.finish(t)
-	return StepInfo{Ctl: sl.c.name, Part: sl.part, ID: idString(it.id), Done: true, Err: err}
+	return StepInfo{Ctl: sl.c.name, Part: sl.part, ID: s.idStr(it.id), Done: true, Err: err}
 }
 
 func (s *Sched) startTask(sl *slot, it *item) StepInfo {
@@ -569,23 +578,23 @@ func (s *Sched) advance(t *task) StepInfo {
 func (s *Sched) waitTask(t *task) StepInfo {
 	select {
 	case <-t.yieldCh:
-		return StepInfo{Ctl: t.sl.c.name, Part: t.sl.part, ID: idString(t.it.id), Op: t.atOp}
+		return StepInfo{Ctl: t.sl.c.name, Part: t.sl.part, ID: s.idStr(t.it.id), Op: t.atOp}
 	case <-t.done:
 		t.sl.inflight = nil
 		t.sl.gate.task = nil
 		s.finish(t)
-		return StepInfo{Ctl: t.sl.c.name, Part: t.sl.part, ID: idString(t.it.id), Done: true, Err: t.err}
+		return StepInfo{Ctl: t.sl.c.name, Part: t.sl.part, ID: s.idStr(t.it.id), Done: true, Err: t.err}
 	}
 }
 
 func (s *Sched) finish(t *task) {
 	sl, it := t.sl, t.it
 	if t.panicked != nil {
-		s.Panics = append(s.Panics, fmt.Sprintf("%s %s: %v\n%s", sl.c.name, idString(it.id), t.panicked, t.stack))
+		s.Panics = append(s.Panics, fmt.Sprintf("%s %s: %v\n%s", sl.c.name, s.idStr(it.id), t.panicked, t.stack))
 		return
 	}
 	if t.poisoned {
-		s.x.Logf("  step %d %s[%s] %s -> lost in crash", s.Steps, sl.c.name, sl.part, idString(it.id))
+		s.x.Logf("  step %d %s[%s] %s -> lost in crash", s.Steps, sl.c.name, sl.part, s.idStr(it.id))
 		return
 	}
 	if t.err != nil {
@@ -604,15 +613,15 @@ func (s *Sched) finish(t *task) {
 		if !dup {
 			sl.pending = append(sl.pending, it)
 		}
-		s.x.Logf("  step %d %s[%s] %s -> error (attempt %d): %v", s.Steps, sl.c.name, sl.part, idString(it.id), it.errs, firstLine(t.err.Error()))
+		s.x.Logf("  step %d %s[%s] %s -> error (attempt %d): %v", s.Steps, sl.c.name, sl.part, s.idStr(it.id), it.errs, firstLine(t.err.Error()))
 		return
 	}
 	if t.res.Requeue.Value != nil {
 		s.enqueueSlot(sl, t.res.Requeue)
-		s.x.Logf("  step %d %s[%s] %s -> requeue %s", s.Steps, sl.c.name, sl.part, idString(it.id), idString(t.res.Requeue))
+		s.x.Logf("  step %d %s[%s] %s -> requeue %s", s.Steps, sl.c.name, sl.part, s.idStr(it.id), s.idStr(t.res.Requeue))
 		return
 	}
-	s.x.Logf("  step %d %s[%s] %s", s.Steps, sl.c.name, sl.part, idString(it.id))
+	s.x.Logf("  step %d %s[%s] %s", s.Steps, sl.c.name, sl.part, s.idStr(it.id))
 }
 
 func firstLine(s string) string {
